@@ -59,7 +59,7 @@ func (m mapper) kv(k, v int) (int, int) {
 }
 
 var enumPreds = []pred{{Name: "true"}, {Name: "false"}, {Name: "keymod", M: 2, R: 0}, {Name: "keymod", M: 2, R: 1},
-	{Name: "valmod", M: 2, R: 0}, {Name: "valmod", M: 3, R: 1}, {Name: "index", I: 1}, {Name: "sum3", M: 3, R: 0}}
+	{Name: "valmod", M: 2, R: 0}, {Name: "valmod", M: 3, R: 1}, {Name: "index", I: 1}, {Name: "sum3", M: 3, R: 0}, {Name: "keymod", M: 7, R: 3}}
 var idxMappers = []mapper{{"add", 1}, {"half", 0}, {"const", 7}, {"index", 0}, {"sum", 0}}
 var kvMappers = []mapper{{"id", 0}, {"khalf", 0}, {"vconst", 5}, {"kconst", 2}, {"vkey", 0}, {"neg", 0}, {"vhalf", 0}}
 
@@ -385,6 +385,7 @@ func jobEnum(j *jobCtx) {
 		return b
 	}
 	ctr := new(int)
+	hugeDone := map[string]bool{}
 	for _, k := range kindsOf["enum"] {
 		if !j.want(k) {
 			continue
@@ -428,6 +429,30 @@ func jobEnum(j *jobCtx) {
 			}
 			if big != nil {
 				paths = append(paths, big)
+			}
+			// and one of 600 (beyond any block of 256 or 512 elements), first: fixed cost
+			if !hugeDone[k] {
+				hugeDone[k] = true
+				var huge []Call
+				switch x0.(type) {
+				case *seqInst:
+					vs := make([]int, 600)
+					for i := range vs {
+						vs[i] = (i * 7) % 311
+					}
+					huge = append(huge, Call{Op: "Add", Vs: vs})
+				case *setInst:
+					huge = append(huge, Call{Op: "Add", Vs: rangeInts(600, 0)})
+				case *mapInst:
+					if !mapBidi(k) {
+						for i := 0; i < 300; i++ { // (the reference computation of Map on a map is quadratic)
+							huge = append(huge, Call{Op: "Put", I: (i * 13) % 300, V: i % 5})
+						}
+					}
+				}
+				if huge != nil {
+					paths = append([][]Call{huge}, paths...)
+				}
 			}
 			for _, p := range paths {
 				if budgetExceeded() {
